@@ -24,8 +24,10 @@ THEOREMS = {
     "ed_add_zero": "Mathlib:add_zero/zero_add", "ed_add_comm": "Mathlib:add_comm", "ed_neg_def": "neg_mul'",
     "ed_mul_O": "Mathlib:smul_zero", "ed_neg_O": "Mathlib:neg_zero",
     "ed_same_y": "Edwards:enc_injective_core",
+    "ed_ladder_diff": "Edwards:ladder_diff_abstract",      # with zero_coord_order_four: a zero coordinate means order | 4
+    "ed_xrecover_complete": "Edwards:xrecover_complete",   # with xrecover_sq and xrecover_range
 }
-NEEDS_EDGROUP = {k for k in THEOREMS if k.startswith("ed_") and k != "ed_same_y"}
+NEEDS_EDGROUP = {k for k in THEOREMS if k.startswith("ed_") and k not in ("ed_same_y", "ed_xrecover_complete")}
 
 
 def _sha(text):
@@ -102,7 +104,7 @@ def lemma_status(name):
 
 
 # ---- generated part ------------------------------------------------------------------------------------------------------
-GEN_FUNCS = [("inv", {}, "ℤ"), ("double_element", {"pt": 4}, "ℤ × ℤ × ℤ × ℤ"), ("add_elements", {"pt1": 4, "pt2": 4}, "ℤ × ℤ × ℤ × ℤ"),
+GEN_FUNCS = [("inv", {}, "ℤ"), ("xrecover", {}, "ℤ"), ("double_element", {"pt": 4}, "ℤ × ℤ × ℤ × ℤ"), ("add_elements", {"pt1": 4, "pt2": 4}, "ℤ × ℤ × ℤ × ℤ"),
              ("_add_elements_nonunfied", {"pt1": 4, "pt2": 4}, "ℤ × ℤ × ℤ × ℤ"), ("xform_affine_to_extended", {"pt": 2}, "ℤ × ℤ × ℤ × ℤ"),
              ("xform_extended_to_affine", {"pt": 4}, "ℤ × ℤ"), ("is_extended_zero", {"XYTZ": 4}, "Prop"), ("isoncurve", {"P": 2}, "Prop")]
 
@@ -160,9 +162,11 @@ def edwards_status(repo=None, verifier=None):
         _STATIC["edw"] = dict(ok=False, theorems=set(), why="module constants Q/d/I unreadable or Q != 2^255-19")
         return _STATIC["edw"]
     gen, errors = generate_defs(repo, vals)
-    text = open(hdr).read() + "\n" + gen + "\n" + open(prf).read()
+    ext = os.path.join(LEAN_DIR, "EdwardsExtra.lean")
+    exttext = open(ext).read() if os.path.exists(ext) else ""
+    text = open(hdr).read() + "\n" + gen + "\n" + open(prf).read() + "\n" + exttext
     r = run_lean(text, "Edwards")
-    names = set(re.findall(r"^\s*(?:theorem|lemma)\s+([A-Za-z_0-9']+)", open(prf).read(), re.M))
+    names = set(re.findall(r"^\s*(?:theorem|lemma)\s+([A-Za-z_0-9']+)", open(prf).read() + exttext, re.M))
     _STATIC["edw"] = dict(ok=r["ok"] and not errors, theorems=names, why=(str(errors) if errors else r["tail"][-400:]), seconds=r["seconds"], cached=r["cached"], gen_errors=errors, sha=r["sha"])
     return _STATIC["edw"]
 
